@@ -36,6 +36,8 @@ class _Prog(nn.Module):
                     pad = 0
                 elif pad == 'none':
                     pad = 0
+                if pad == 0 and op.get('valid_str'):
+                    pad = 'valid'        # the same padding, spelled as PyTorch's string
                 # optional non-square kernel / per-axis dilation / padding (integer back-end tests)
                 ksz = tuple(op['kshape']) if 'kshape' in op else op['k']
                 dil = tuple(op['dshape']) if 'dshape' in op else op['d']
@@ -296,7 +298,13 @@ class Builder:
                 pw = (kw - 1) * dw_ // 2 if same else rng.choice([0, (kw - 1) * dw_ // 2])
                 ho2 = (H + 2 * ph - dh * (kh - 1) - 1) // sh + 1
                 wo2 = (W + 2 * pw - dw_ * (kw - 1) - 1) // sw + 1
-                if ho2 >= 1 and wo2 >= 1:
+                if same and rng.random() < 0.4:
+                    # padding='same' kept as a string with an even kernel side: PyTorch pads
+                    # asymmetrically (one more row / column at the end)
+                    kh, kw = rng.choice([(2, 3), (3, 2), (2, 2), (4, 3), (1, 2)])
+                    nonsq = {'kshape': [kh, kw], 'dshape': [dh, dw_], 's': [1, 1]}
+                    self.features.add('same-padding-even-kernel')
+                elif ho2 >= 1 and wo2 >= 1:
                     nonsq = {'kshape': [kh, kw], 'dshape': [dh, dw_], 'pshape': [ph, pw],
                              's': [sh, sw]}
                     oshape = (cout, ho2, wo2)
@@ -305,6 +313,9 @@ class Builder:
         out = self.fresh()
         op = {'op': 'conv', 'name': name, 'src': src, 'out': out, 'cin': cin, 'cout': cout,
               'k': k, 'd': d, 's': s, 'bias': bias, 'pad': pad, 'dw': dw}
+        if self.dim == 1 and pad in ('causal', 'none') and rng.random() < 0.3:
+            op['valid_str'] = True
+            self.features.add('padding-valid-string')
         if self.dim == 2 and nonsq:
             op.update(nonsq)
             s = max(nonsq['s'])
@@ -835,7 +846,7 @@ def single_conv_program(K, d, position='middle', cin=2, cout=3, L=None, bias=Tru
             'features': ['single-conv', position], 'traits': []}
 
 
-def reuse_program(rng, family='1d', same_size=True, with_bn=False):
+def reuse_program(rng, family='1d', same_size=True, with_bn=False, pre_bn_consumer=False):
     """One searchable conv applied to two network inputs (equal channel count, equal or different
     spatial size), joined on the time/height axis, followed by a conv, pooling and a classifier."""
     c = rng.randint(1, 3)
@@ -862,8 +873,13 @@ def reuse_program(rng, family='1d', same_size=True, with_bn=False):
         bn = {'op': 'bn', 'name': 'sharedbn', 'c': co, 'bdim': 1 if family == '1d' else 2,
               'affine': True, 'eps': [1e-5, 1e-3, 2e-2][co % 3]}
         ops += [dict(bn, src='a0', out='n0'), dict(bn, src='a1', out='n1', reuse=True)]
+        if pre_bn_consumer:
+            # the raw (pre-BatchNorm) output of the SECOND invocation has another consumer: the
+            # pair cannot be fused there (PLiNIO refuses such a network)
+            ops += [{'op': 'add', 'srcs': ['n1', 'a1'], 'kind': 'op', 'out': 'n1r'}]
     ops += [{'op': 'act', 'kind': 'relu_f', 'src': 'n0' if with_bn else 'a0', 'out': 'b0'},
-           {'op': 'act', 'kind': 'relu_f', 'src': 'n1' if with_bn else 'a1', 'out': 'b1'},
+           {'op': 'act', 'kind': 'relu_f', 'src': ('n1r' if pre_bn_consumer else 'n1') if with_bn
+            else 'a1', 'out': 'b1'},
            {'op': 'cat', 'srcs': ['b0', 'b1'], 'dim': 2, 'out': 'c'},
            dict({'op': 'conv', 'name': 'post', 'src': 'c', 'out': 'd', 'cin': co,
                  'cout': rng.randint(2, 5), 'd': 1, 's': 1, 'bias': True, 'dw': False}, **k2),
@@ -874,7 +890,8 @@ def reuse_program(rng, family='1d', same_size=True, with_bn=False):
                 'fout': 3, 'bias': True})
     return {'family': family, 'inputs': inputs, 'ops': ops, 'out': 'o', 'excluded': [],
             'features': ['reuse', 'reuse-same' if same_size else 'reuse-diffsize', 'tcat'] +
-            (['reuse-conv-bn-pair', 'bn'] if with_bn else []), 'traits': []}
+            (['reuse-conv-bn-pair', 'bn'] if with_bn else []) +
+            (['reuse-pair-pre-bn-consumer'] if with_bn and pre_bn_consumer else []), 'traits': []}
 
 
 def tensor_shapes(prog):
